@@ -160,7 +160,14 @@ PlacementsThorough == PlacementsQuick \cup
                        << <<0, 0>>, <<0, 0>>, <<0, 0>>, <<0, 0>> >>,
                        << <<12, 1>>, <<12, -1>>, <<5, 1>>, <<23, 0>> >>,
                        << <<1, 0>>, <<0, -1>>, <<11, 0>>, <<12, 1>> >>}
+\* medium sets: every state of the thorough replay configuration is run through the real filter
+KindSetsMid   == KindSetsQuick \cup {<<"azel", "azel", "radar", "radar">>}
+PlacementsMid == PlacementsQuick \cup
+                 {<< <<12, 0>>, <<12, 0>>, <<0, 0>>, <<0, 0>> >>,
+                  << <<17, 0>>, <<0, -1>>, <<0, 1>>, <<12, 0>> >>,
+                  << <<1, 0>>, <<0, -1>>, <<11, 0>>, <<12, 1>> >>}
 SubsQuick    == {<<1, -1, 0, 1>>}
+SubsMid      == SubsQuick \cup {<<-1, 1, -1, 0>>}
 SubsThorough == SubsQuick \cup {<<-1, 1, -1, 0>>, <<0, 0, 1, -1>>, <<-1, -1, 1, 1>>}
 TurnsQuick    == {-3, 1}
 TurnsThorough == {-3, -1, 1, 2}
